@@ -227,6 +227,9 @@ GRAMMAR_BAD = [
     ('/<x>/<x>', 'duplicate binding'), ('/<x:int>/a/<x*>', 'duplicate binding'), ('/<x?>/<y>/<x+float>', 'duplicate binding'),
     ('/<x:foo>', 'unknown type'), ('/<x:integer>', 'unknown type'), ('/<x*bytes>', 'unknown type'),
     ('/a/<x?Int>', 'unknown type'), ('/<x:bool>', 'unknown type'),
+    # type names need not look like identifiers to be unknown
+    ('/<x:2>', 'unknown type'), ('/x/<a?3d>', 'unknown type'), ('/<a*64bit>/', 'unknown type'), ('/<b>/<a+0int>/y', 'unknown type'),
+    ('/<x:int2>', 'unknown type'), ('/<x:_>', 'unknown type'), ('/<x:\u00fcnt>', 'unknown type'), ('/<x:1>/<y:int>', 'unknown type'),
     ('/<x!int>', 'unknown operator'), ('/<x??>', 'unknown operator'), ('/<x int>', 'unknown operator'),
     ('/<x**>', 'unknown operator'), ('/<x~>', 'unknown operator'), ('/<x+?str>', 'unknown operator'),
     ('/<x=float>', 'unknown operator'), ('/<x|>', 'unknown operator'), ('/<x::int>', 'unknown operator'),
@@ -261,7 +264,7 @@ def grammar_cases(sh, rng, n_random):
             pat = pat.replace('<x%d' % b, '<x%d' % a, 1)
             why = 'duplicate binding'
         elif defect == 3:
-            typ = rng.pick(['foo', 'integer', 'String', 'number', 'path', 'uuid'])
+            typ = rng.pick(['foo', 'integer', 'String', 'number', 'path', 'uuid', '2', '3d', '64bit', '0int', 'int2', '_', '9', 'float_'])
             pat, why = pat + ('' if pat.endswith('/') else '/') + '<z%s%s>' % (rng.pick([':', '?', '*', '+']), typ), 'unknown type'
         elif defect == 4:
             op = rng.pick(['!', '??', '**', ' ', '~', '%', '=', '+*', '::', '?:'])
